@@ -18,6 +18,7 @@ programs (harness/gen_c08.py), printed from the same AST by the extracted printe
 import collections
 import json
 import os
+import time
 
 import common
 import gen_c08
@@ -134,7 +135,10 @@ def replay_finding(impl, f):
 
 def run(rep):
     seed, tier = rep.seed, rep.tier
+    timing = {}
+    t0 = time.time()
     cq = common.coq_check_props(PROP)
+    timing["coq"] = round(time.time() - t0, 1)
     common.proof_coverage(rep, cq)
     if not cq["ok"]:
         rep.violation("proof", {"theorem": cq["failed_theorem"], "log": cq["log"][-3000:]},
@@ -174,7 +178,9 @@ def run(rep):
     reuse_ref_differs = 0
     allbad = []
     for fam, progs in fams.items():
+        t0 = time.time()
         ms, imp, bad = run_family(impl, fam, progs)
+        timing[fam] = round(time.time() - t0, 1)
         evaluations += len(progs)
         key = "mech" if fam == "reuse" else "ref"
         for p, m, i in zip(progs, ms, imp):
@@ -196,7 +202,9 @@ def run(rep):
     for k in range(n_core):
         g = gen_core.Gen(rng_for(seed, "c08-core", k), gen_core.Opts(funcs=4, arrays=False, max_stmts=6))
         core.append(g.program())
+    t0 = time.time()
     res, cbad = langrun.differential(impl, core)
+    timing["core"] = round(time.time() - t0, 1)
     evaluations += len(core)
     for p, r in zip(core, res):
         outcomes["core:" + r["model"]["expect"]] += 1
@@ -214,7 +222,7 @@ def run(rep):
         "features": dict(feats.most_common(60)),
         "reuse_programs_where_mech_differs_from_ref": reuse_ref_differs,
         "samples": samples[:6],
-        "disagreements": len(allbad) + len(cbad),
+        "disagreements": len(allbad) + len(cbad), "timing_s": timing,
     })
 
     budget = 60 if quick else 200
@@ -262,11 +270,14 @@ def run(rep):
         ok, rc, o, e = replay_finding(impl, f)
         if not ok:
             rep.known(f["id"], f["what_fails"])
-            exp = f["replay"].get("mech_stdout")
-            if exp is not None and o != exp:
-                rep.violation("mech-finding", {"finding": f["id"], "program": f["replay"]["program"], "impl_stdout": o, "mech_stdout": exp,
-                                               "expected_stdout": f["replay"]["expected_stdout"]},
-                              "main fails known finding %s differently from what the Mech model (and its _refuted witness) predicts" % f["id"])
+            sx = f["replay"].get("sexpr")
+            if sx:
+                m = model_run([sx], fuel=400)[0]
+                why = langrun.compare(m["mech"], {"rc": rc, "out": o, "err": e})
+                if why:
+                    rep.violation("mech-finding", {"finding": f["id"], "family": "reuse", "sexpr": sx, "program": f["replay"]["program"], "impl_stdout": o, "impl_rc": rc,
+                                                   "mech_stdout": m["mech"]["out"], "mech": m["mech"]["expect"], "expected_stdout": f["replay"]["expected_stdout"], "why": why},
+                                  "main fails known finding %s differently from what the Mech model (and its _refuted witness) predicts (%s)" % (f["id"], why))
         else:
             rep.notes.append("known finding %s no longer reproduces (fixed?)" % f["id"])
     rep.assumptions += [
